@@ -21,33 +21,37 @@ def sameVars (a b : Vars) : Bool :=
   showVars a == showVars b
 
 /-- Recogniser of one specific history shape (known finding `inclusive_join_stale_tracker`, D33): an inclusive JOIN
-(two or more incoming flows) announces its outgoing flows (`flow J …` — it has fired) at a moment when a token that an
-earlier `FlowTrace` announced as travelling on one of J's incoming flows has not yet visited J. The join decided on a
-picture of its flow tracker that did not yet contain that `FlowTrace` (the tracker's lock only covers the first
-activation; the tracer's broadcast to the tracker races with the arriving token). Counting is per join:
-announced arrivals minus visits. -/
+(two or more incoming flows) that has fired before in this run (it is re-entered through a loop; the first activation is
+covered by the tracker's start-up lock) announces its outgoing flows again (`flow J …` — it has fired) while a token
+announced by an earlier `FlowTrace` and still alive — not one of those leaving J now — is on one of J's incoming flows or
+at a node from which J can still be reached. The join decided on a picture of its flow tracker that did not yet contain
+the `FlowTrace` announcing that sibling (the tracer's broadcast to the tracker races with the arriving token). Tokens are
+followed by identity: `flow SRC tok:flow,…` moves each listed token to the flow's target, `term tok` removes it. -/
 def staleTrackerFire (c : Case) : Option String := Id.run do
   let joins := c.proc.nodes.filter (fun n => n.kind == .incl && n.ins.length ≥ 2)
   if joins.isEmpty then return none
-  let mut pending : List (String × Int) := joins.map (fun n => (n.id, 0))
-  let bump := fun (pend : List (String × Int)) (j : String) (d : Int) =>
-    pend.map (fun (x : String × Int) => if x.1 == j then (x.1, x.2 + d) else x)
+  let mut loc : List (String × String) := []
+  let mut fired : List String := []
   for (obs, _) in c.segs do
     for o in obs do
       match words o with
-      | ["visit", n] => pending := bump pending n (-1)
+      | ["term", tok, _] => loc := loc.filter (·.1 != tok)
       | ["flow", src, fl] =>
-        -- a join that fires while an announced token is still on its way
-        match pending.find? (·.1 == src) with
-        | some (_, k) => if k > 0 then return some src
-        | none => pure ()
-        for pr in commaList fl do
+        let pairs : List (String × String) := (commaList fl).filterMap (fun pr =>
           match pr.splitOn ":" with
-          | [_, f] =>
-            match c.proc.flow? f with
-            | some sf => pending := bump pending sf.dst 1
-            | none => pure ()
-          | _ => pure ()
+          | [t, f] => some (t, f)
+          | _ => none)
+        let leaving := pairs.map (·.1)
+        if joins.any (·.id == src) then
+          if fired.contains src then
+            if loc.any (fun (x : String × String) =>
+                !leaving.contains x.1 && (x.2 == src || Bpmn.Model.Engine.canReach c.proc x.2 src)) then
+              return some src
+          else fired := src :: fired
+        for (t, f) in pairs do
+          match c.proc.flow? f with
+          | some sf => loc := (loc.filter (·.1 != t)) ++ [(t, sf.dst)]
+          | none => pure ()
       | _ => pure ()
   return none
 
